@@ -35,7 +35,7 @@ def generate(rng, seed, index, tier):
         kw["penalty_update"] = str(rng.choice(["ObjectiveFilter", "LagrangianFilter"]))
         kw["iteration_limit"] = int(rng.choice([20, 60, 150]))
         kw = gen.quiet_params(kw)
-        return gen.base_world(seed, ID, index, spec, x0, y0, kw, case={"mode": "live"})
+        return gen.base_world(seed, ID, index, spec, x0, y0, kw, case={"mode": "live", "resolve": bool(rng.random() < 0.3)})
     n = int(rng.integers(1, 41))
     fac = float(rng.choice([1.0, 0.5, 1e-3, 7.0, 1e6]))
     ops = []
@@ -151,6 +151,11 @@ def case(world):
     stats = {}
     ex = execute(world)
     viol = check_C18_live(ex)
+    if world["case"].get("resolve") and ex.solver is not None and ex.trials and not viol:
+        # the same solver object solves again: every operation of the live filter is still one step of the set model
+        ex2 = execute(world, problem=ex.problem, solver=ex.solver)
+        stats["live.resolved"] = 1
+        viol = check_C18_live(ex2, {"variant": "resolved"})
     ups = sum(1 for t in ex.trials if t.filter_after is not None)
     vet = sum(1 for t in ex.trials if t.penalty is not None and not t.penalty[1])
     stats["live.updates"] = ups
